@@ -90,7 +90,8 @@ def main():
             {"name": "codec", "path": "/verif/spec/Codec.tla", "serves_properties": ["C19"], "kind_free_text": "index-arithmetic specs of codecs / accessors, strict JSON and CSV decoders in TLA+; trace validation"},
             {"name": "equiv-map", "path": "/verif/spec/Equiv.tla", "serves_properties": ["C15"], "kind_free_text": "graph equality, equivalence laws, finite-map model of hash tables; trace validation"},
             {"name": "import", "path": "/verif/spec/Import.tla", "serves_properties": ["C14"], "kind_free_text": "set algebra of R7RS import sets and library instantiation; TLC as case generator; trace validation"},
-            {"name": "text", "path": "/verif/spec/Regex.tla", "serves_properties": ["C20", "C12", "C08"], "kind_free_text": "SRE denotation by Brzozowski derivatives and a split-based definition, cross-checked by TLC; TLC-generated cases; trace validation"},
+            {"name": "text", "path": "/verif/spec/Regex.tla", "serves_properties": ["C20", "C12", "C08", "C04", "C17"], "kind_free_text": "SRE denotation by Brzozowski derivatives and a split-based definition, cross-checked by TLC; TLC-generated cases; trace validation"},
+            {"name": "num", "path": "/verif/spec/BigNat.tla", "serves_properties": ["C04", "C17", "C09"], "kind_free_text": "digit-sequence integers/rationals with defining relations, SRFI 151 as infinite two's-complement bit strings; checked against TLC integers at base 4; trace validation at base 2^10"},
             {"name": "sched", "path": "/verif/spec/Sched.tla", "serves_properties": ["C11"],
              "kind_free_text": "TLA+ transcription of the green-thread scheduler and SRFI 18 primitives; MC with liveness; trace validation under forced time slices"},
         ],
@@ -110,7 +111,7 @@ def main():
 
 
 NA = {}
-APPROVED = ["C11", "C03", "C05", "C06", "C09", "C01", "C13", "C07", "C19", "C15", "C14", "C20", "C12", "C08"]
+APPROVED = ["C11", "C03", "C05", "C06", "C09", "C01", "C13", "C07", "C19", "C15", "C14", "C20", "C12", "C08", "C04", "C17"]
 
 if __name__ == "__main__":
     main()
